@@ -63,3 +63,17 @@ Theorem c07_none_is_final : forall e, iter_env e -> forall progs, wf_progs progs
    exists t, closing (t_pc (c_pool (exec e (init progs) sched) t)) = true).
 Proof. exact iter_none_is_final. Qed.
 Print Assumptions c07_none_is_final.
+
+(** ** the hypothesis [nowrap] is necessary (finding F14: [next(); next_chunk(usize::MAX)] wraps the reserved
+    counter of the wrapper; two pullers then hold the same ticket): a run that meets every other hypothesis
+    of the theorems above, on which the scan objects and two distinct threads are inside together *)
+From OCI.proofs Require Import RunC16 Witnesses.
+Theorem c07_refuted_when_the_reserved_counter_wraps :
+  exists e progs sched, iter_env e /\ fused e /\ e_crash e = None /\ wf_progs progs /\ plain_progs progs /\
+    ~ nowrap (c_labels (exec e (init progs) sched)) /\
+    chk_C07_mutex (c_labels (exec e (init progs) sched)) = false /\
+    exists t u, t <> u /\
+      in_crit (t_pc (c_pool (exec e (init progs) sched) t)) = true /\
+      in_crit (t_pc (c_pool (exec e (init progs) sched) u)) = true.
+Proof. exact f14_mutual_exclusion_fails_when_the_reserved_counter_wraps. Qed.
+Print Assumptions c07_refuted_when_the_reserved_counter_wraps.
